@@ -585,12 +585,24 @@ def run(ctx):
         if fi.fq not in reach:
             continue
         for c in walk_own(fi.node):
-            if not (isinstance(c, ast.Call) and call_name(c) in ("insert_xpaths", "insert_output_values")):
+            if not (isinstance(c, ast.Call) and call_name(c) in ("insert_xpaths", "insert_output_values", "_var_repl_function")):
                 continue
             owner = fi
             while owner.cls is None and owner.parent is not None:
                 owner = owner.parent
             if owner.cls is None:
+                # a module-level helper that is handed the element as `context` resolves references from that element
+                a_ = owner.node.args
+                if "context" in {x_.arg for x_ in [*a_.posonlyargs, *a_.args, *a_.kwonlyargs]}:
+                    cx_ = kw(c, "context")
+                    if cx_ is None and len(c.args) > 1:
+                        cx_ = c.args[1]
+                    n_ctx += 1
+                    r4.check(cx_ is not None and norm(cx_) == "context", f"{fi.qualname}:{call_name(c)}(..., context={norm(cx_) if cx_ is not None else 'None'})",
+                             "references are resolved from the element the helper was given as context", fi.loc(c),
+                             why_fail="another context: a relative path computed from another node reaches a different node (or is absolute where it must be relative)")
+                continue
+            if call_name(c) == "_var_repl_function":
                 continue
             cx = kw(c, "context")
             if cx is None and len(c.args) > 1:
@@ -616,6 +628,30 @@ def run(ctx):
             o2["rule"] = "C03.R4"
             o2["shared_with"] = "C07.R2b"
             r4.obligations.append(o2)
+    # a choice list is shared by every select that names it: its label texts are registered WITHOUT an element context (a
+    # reference in a choice label is resolved absolutely) - a context taken from one of the selects is wrong for the others
+    from .. import trees as _trees3
+    mq3 = repo.cls("pyxform.question:MultipleChoiceQuestion")
+    ic3 = repo.cls("pyxform.question:Itemset")
+    oc3 = repo.cls("pyxform.question:Option")
+    st3 = scls.methods["_setup_translations"]
+    for desc3, label3 in (("plain label with a reference", "Pet of ${owner}"), ("translated label with a reference", {"en": "Pet of ${owner}", "fr": "Animal de ${owner}"})):
+        iset3 = Obj(ic3, {"name": "l", "options": (_trees3.mk(ctx, oc3, "a", label=label3, media=None),), "requires_itext": True, "used_by_search": False}, name="itemset:l")
+        sels3 = [_trees3.mk(ctx, mq3, nm3, type="select one", label=nm3.upper(), bind={"type": "string"}, control={}, itemset="l", list_name="l", choices=iset3, choice_filter=None, parameters=None) for nm3 in ("first", "second")]
+        it3 = ctx.interp("C03.R4")
+        it3.reset([])
+        rd3 = it3.call(it3.module_global(repo.module("pyxform.survey"), "recursive_dict"), [], {}, None)
+        sv3 = _trees3.mk(ctx, scls, "data", type="survey", children=sels3, choices={"l": iset3}, default_language="default", _translations=rd3)
+        for e3 in sels3:
+            e3.attrs["parent"] = sv3
+        try:
+            it3.call_function(st3, [sv3], {}, None, st3.node)
+            leaves3 = [lf3 for lang3, d3 in sv3.attrs["_translations"].items() for id3, forms3 in d3.items() if id3 == "l-0" for fk3, lf3 in forms3.items() if fk3 == "long"]
+            bad3 = [lf3 for lf3 in leaves3 if isinstance(lf3, dict) and lf3.get("output_context") is not None]
+            ok3, why3 = bool(leaves3) and not bad3, f"registered {leaves3!r}"[:200]
+        except Raised as e:
+            ok3, why3 = False, f"raises {e.exc_name}{e.exc_args}"
+        r4.check(ok3, f"choice label registered[{desc3}, list shown by two selects]", "the text is registered without an element context", st3.loc(), why_fail=why3)
     r4.check(n_ctx >= 15, "substitution contexts census", f"{n_ctx} substitution calls in element methods examined", "pyxform/")
     rules.append(r4)
     rules.append(_relation_rule(ctx))
